@@ -100,6 +100,7 @@ let functions : (string * (val0 -> val0)) list = [
   ("evm", evm_run);
   ("genesis", genesis_run);
   ("det", det_run);
+  ("blocks", hub_run);
   ("detoracle", oracle_run);
   ("votesgen", votesgen_run);
   ("oraclegen", oraclegen_run);
@@ -124,6 +125,9 @@ let monitors : ((string * string) * (val0 -> val0 -> val0)) list = [
   (("C14", "claim"), mon_C14);
   (("C16", "reg"), mon_C16);
   (("C17", "reg"), mon_C17);
+  (("C05", "blocks"), mon_C05_hub);
+  (("C05", "votes"), mon_C05_votes);
+  (("C05", "oracle"), mon_C05_oracle);
   (("C15", "genesis"), mon_C15_hub);
   (("C15", "votesgen"), mon_C15_votes);
   (("C15", "oraclegen"), mon_C15_oracle);
